@@ -111,32 +111,44 @@ class Interp:
         ql = getattr(self, 'qlemmas', None)
         if not ql:
             return []
-        ground, seen, stack = [], set(), [t for t in terms if z3.is_expr(t)]
-        while stack:
-            t = stack.pop()
-            if t.get_id() in seen:
-                continue
-            seen.add(t.get_id())
-            if z3.is_quantifier(t):
-                continue
-            if z3.is_app(t) and t.num_args() > 0:
-                ground.append(t)
-                stack.extend(t.children())
+        heads = {pat.decl().name() for _q, _b, pat in ql}
+        cache = self.__dict__.setdefault('_cand_cache', {})      # formula id -> (formula, candidate terms): the path condition is shared by many obligations
+
+        def candidates(f):
+            got = cache.get(f.get_id())
+            if got is not None and got[0].eq(f):
+                return got[1]
+            found, seen_, stack_ = [], set(), [f]
+            while stack_:
+                t = stack_.pop()
+                if t.get_id() in seen_:
+                    continue
+                seen_.add(t.get_id())
+                if z3.is_quantifier(t) or not z3.is_app(t) or t.num_args() == 0:
+                    continue
+                if t.decl().name() in heads:
+                    found.append(t)
+                stack_.extend(t.children())
+            cache[f.get_id()] = (f, found)
+            return found
+        ground, seen = [], set()
+        for f in terms:
+            if z3.is_expr(f):
+                for t in candidates(f):
+                    if t.get_id() not in seen:
+                        seen.add(t.get_id())
+                        ground.append(t)
         out, done = [], set()
         for _round in (0, 1):
           # (second round: the terms of the first round's instances — an unfolding nsel(s, n) = nsel(s, n - 1) + ... brings nsel(s, n - 1))
           if _round == 1:
-            stack = list(out)
-            while stack:
-                t = stack.pop()
-                if t.get_id() in seen:
-                    continue
-                seen.add(t.get_id())
-                if z3.is_quantifier(t):
-                    continue
-                if z3.is_app(t) and t.num_args() > 0:
-                    ground.append(t)
-                    stack.extend(t.children())
+            if not out:
+                break
+            for f in list(out):
+                for t in candidates(f):
+                    if t.get_id() not in seen:
+                        seen.add(t.get_id())
+                        ground.append(t)
           for qvars, body, pat in ql:
               qids = {q.get_id(): q for q in qvars}
 
